@@ -537,8 +537,8 @@ def o_c04_close_answered(scn, obs, runner):
 def o_c04_okays(scn, obs, runner):
     """each device WRITE delivered to the caller is acknowledged with exactly one OKAY (checked when every op succeeded)."""
     fails = []
-    if not all(res_ok(o) for o in obs):
-        return fails
+    if not all(res_ok(o) for o in obs) or scn.get("failkind") == "trailing":
+        return fails      # (trailing: the device writes on after the transfer ended; those WRTEs are not delivered, so the counts differ by design)
     for c in runner.link.used:
         per = {}
         for who, cmd, a0, a1, d in c.sim.log:
@@ -753,6 +753,9 @@ def o_c03_corrupt(scn, obs, runner):
         if cor["kind"] == "sum" and cor["nonempty"]:
             if c.in_off >= (end or 1 << 60) and "err InvalidChecksumError" not in kinds:
                 fails.append(dict(op=None, why="a packet with a wrong checksum was consumed without InvalidChecksumError (results: %r)" % kinds))
+        if cor["kind"] == "sum" and not cor["nonempty"] and "err InvalidChecksumError" in kinds:
+            # only a NON-EMPTY payload can fail to match its checksum; a payload-less packet is exactly what the device sent whatever the field holds
+            fails.append(dict(op=None, why="a packet WITHOUT payload (%s) was rejected with InvalidChecksumError because of its data_check field (results: %r)" % (cor["cmd"].decode(), kinds)))
         if cor["kind"] == "cmd":
             hdr_end = pos + 24 if pos >= 0 else None
             if c.in_off >= (hdr_end or 1 << 60) and "err InvalidCommandError" not in kinds:
